@@ -1,4 +1,4 @@
-from typing import Callable, SupportsFloat
+from typing import Callable, Optional, SupportsFloat
 from sympy import Expr, Pow, Derivative, Abs, Mul, Add, Function as SymFunction, sympify
 from sympy.functions.elementary.miscellaneous import MinMaxBase
 from sympy.physics.units import Quantity as SymQuantity, Dimension
@@ -51,19 +51,36 @@ def _collect_pow(expr: Pow) -> tuple[Expr, Dimension]:
     raise ValueError(f"Dimension of '{expr.exp}' is {exp_dim}, but it should be dimensionless")
 
 
-@_elementwise_wrapper
-def _collect_add(factor: Expr, dim: Dimension, arg: Expr) -> tuple[Expr, Dimension]:
-    arg_factor, arg_dim = collect_quantity_factor_and_dimension(arg)
+def _collect_common_dimension(
+        expr: Expr) -> tuple[list[Expr], Dimension]:
+    """
+    Collects the factors of the arguments of ``expr`` and the dimension shared by all of them.
+    Arguments whose factor is `0`, `±Inf`, or `NaN` can have any dimension.
+    """
 
-    if is_any_dimension(factor):
-        dim = arg_dim
-    elif is_any_dimension(arg_factor):
-        arg_dim = dim
+    factors: list[Expr] = []
+    dim: Optional[Dimension] = None
 
-    if not dimsys_SI.equivalent_dims(dim, arg_dim):
-        raise ValueError(f"Dimension of '{arg}' is {arg_dim}, but it should be {dim}")
+    for arg in expr.args:
+        arg_factor, arg_dim = collect_quantity_factor_and_dimension(arg)
+        factors.append(arg_factor)
 
-    return (factor + arg_factor, dim)
+        if is_any_dimension(arg_factor):
+            continue
+
+        if dim is None:
+            dim = arg_dim
+            continue
+
+        if not dimsys_SI.equivalent_dims(dim, arg_dim):
+            raise ValueError(f"Dimension of '{arg}' is {arg_dim}, but it should be {dim}")
+
+    return factors, (dimensionless if dim is None else dim)
+
+
+def _collect_add(expr: Add) -> tuple[Expr, Dimension]:
+    factors, dim = _collect_common_dimension(expr)
+    return (Add(*factors), dim)
 
 
 def _collect_abs(expr: Abs) -> tuple[Expr, Dimension]:
@@ -72,22 +89,8 @@ def _collect_abs(expr: Abs) -> tuple[Expr, Dimension]:
 
 
 def _collect_min_max(expr: MinMaxBase) -> tuple[Expr, Dimension]:
-    cls = type(expr)
-
-    def collect(factor: Expr, dim: Dimension, arg: Expr) -> tuple[Expr, Dimension]:
-        arg_factor, arg_dim = collect_quantity_factor_and_dimension(arg)
-
-        if is_any_dimension(factor):
-            dim = arg_dim
-        elif is_any_dimension(arg_factor):
-            arg_dim = dim
-
-        if not dimsys_SI.equivalent_dims(dim, arg_dim):
-            raise ValueError(f"Dimension of '{arg}' is {arg_dim}, but it should be {dim}")
-
-        return (cls(factor, arg_factor), dim)
-
-    return _elementwise_wrapper(collect)(expr)
+    factors, dim = _collect_common_dimension(expr)
+    return (type(expr)(*factors), dim)
 
 
 def _collect_function(expr: SymFunction) -> tuple[Expr, Dimension]:
